@@ -1032,6 +1032,44 @@ def m_map_or(it, st, fr, t, args, ga):
     raise I.InterpError('map_or with non-closure')
 
 
+def m_bool_then(it, st, fr, t, args, ga):
+    """bool::then(f): Some(f()) when the receiver is true, None otherwise (the closure only runs on the true side)"""
+    b, clo = args[0], args[1]
+    if not isinstance(b, I.BoolV) or not isinstance(clo, I.ClosureV):
+        raise I.InterpError('bool::then on %r' % (b,))
+
+    def yes(it2, s2, f2):
+        return some(it2.call_closure(s2, clo, []))
+
+    def no(it2, s2, f2):
+        return none()
+    return ('fork', [(b.b, yes), (bnot(b.b), no)])
+
+
+def m_bool_then_some(it, st, fr, t, args, ga):
+    b, v = args[0], args[1]
+    if not isinstance(b, I.BoolV):
+        raise I.InterpError('bool::then_some on %r' % (b,))
+    return ('fork', [(b.b, lambda it2, s2, f2: some(v)), (bnot(b.b), lambda it2, s2, f2: none())])
+
+
+def _ordering(i):
+    return I.EnumV('core::cmp::Ordering', i, {i: []}, vnames=['Less', 'Equal', 'Greater'])
+
+
+def m_f_partial_cmp(it, st, fr, t, args, ga):
+    """<f32 as PartialOrd>::partial_cmp: Some(Less|Equal|Greater); None when an operand is NaN"""
+    a = it.deref(st, args[0]) if isinstance(args[0], I.RefV) else args[0]
+    b = it.deref(st, args[1]) if isinstance(args[1], I.RefV) else args[1]
+    if not isinstance(a, I.Num) or not isinstance(b, I.Num):
+        raise I.InterpError('partial_cmp on %r, %r' % (a, b))
+    if a.term.is_nan() or b.term.is_nan():
+        return none()
+    return ('fork', [(cmp_term('Lt', a.term, b.term), lambda it2, s2, f2: some(_ordering(0))),
+                     (cmp_term('Eq', a.term, b.term), lambda it2, s2, f2: some(_ordering(1))),
+                     (cmp_term('Gt', a.term, b.term), lambda it2, s2, f2: some(_ordering(2)))])
+
+
 def m_is_some(it, st, fr, t, args, ga):
     e = it.deref(st, args[0]) if isinstance(args[0], I.RefV) else args[0]
     return I.BoolV(bconst(_known_variant(e) == 1))
@@ -1135,6 +1173,12 @@ def registry():
         '<f32 as libm::F32Ext>::tan': m_tan,
         'core::mem::replace': m_mem_replace,
         'core::mem::take': m_mem_take,
+        'core::bool::<impl bool>::then': m_bool_then,
+        'core::bool::<impl bool>::then_some': m_bool_then_some,
+        'core::f32::<impl core::cmp::PartialOrd for f32>::partial_cmp': m_f_partial_cmp,
+        '<f32 as core::cmp::PartialOrd>::partial_cmp': m_f_partial_cmp,
+        'core::cmp::impls::<impl core::cmp::PartialOrd for f32>::partial_cmp': m_f_partial_cmp,
+        'core::cmp::impls::<impl core::cmp::PartialOrd for f64>::partial_cmp': m_f_partial_cmp,
         'core::option::Option::<T>::unwrap_or': m_unwrap_or,
         'core::option::Option::<T>::unwrap': m_option_unwrap,
         'core::result::Result::<T, E>::ok': m_result_ok,
